@@ -2,7 +2,7 @@ SPECIFICATION MCSpec
 CONSTANTS
   RunIds = {1, 2}
   Semantics = "pure"
-  ModelSet = {"conv_relu_argmax", "gru_squeeze", "lstm_state_init", "scaler_gemm_const", "linreg_rnn", "gemm_row_bias", "matmul_vector", "same_shape_weights", "expand_concat_add", "weight_views", "two_unnamed_constants"}
+  ModelSet = {"conv_relu_argmax", "gru_squeeze", "lstm_state_init", "scaler_gemm_const", "linreg_rnn", "gemm_row_bias", "matmul_vector", "same_shape_weights", "expand_concat_add", "weight_views", "two_unnamed_constants", "defaulted_bias"}
   Mode = "fine"
 INVARIANTS ConcurrentEqualsSequential NoConflict NoRunFails
 PROPERTY WeightsAndCallerTensorsImmutable
